@@ -62,7 +62,7 @@ Section End.
     match r with
     | Err XFuel => throw XFuel
     | Err (XInvalid m) =>
-        if inner && internal_msg m then _ <- mark_dirty ;; cleanup_loop crun inner f (Some (XInvalid m))
+        if inner && internal_msg m then _ <- mark_dirty ;; _ <- note_ood m ;; cleanup_loop crun inner f last
         else _ <- (if internal_msg m then mark_dirty else ret tt) ;; _ <- note_skip m ;; cleanup_loop crun inner f last
     | Err e => cleanup_loop crun inner f (Some e)
     | Ok _ => cleanup_loop crun inner f last
@@ -74,7 +74,7 @@ Section End.
     res (cleanup_loop crun inner (S f) last s) = Ok last /\ post (cleanup_loop crun inner (S f) last s) = s.
   Proof. intros H. cbn [cleanup_loop]. unfold bind, pop_cleanup. rewrite H. split; reflexivity. Qed.
   Lemma cl_some f last s id c rest : cleanups (ts s) = (id, c) :: rest -> cleaning (ts s) = true ->
-    let s1 := with_ts s (mkT (failed (ts s)) rest (ctx (ts s)) true (skipreq (ts s))) in
+    let s1 := with_ts s (mkT (failed (ts s)) rest (ctx (ts s)) true (skipreq (ts s)) (ood (ts s))) in
     res (cleanup_loop crun inner (S f) last s) = res (loop_handler f last (res (crun c s1)) (post (crun c s1))) /\
     post (cleanup_loop crun inner (S f) last s) = post (loop_handler f last (res (crun c s1)) (post (crun c s1))).
   Proof.
@@ -97,7 +97,7 @@ Section End.
     destruct (cleanups (ts s)) as [|[id c] rest] eqn:El.
     - destruct (cl_none f last s El) as [E1 E2]. rewrite E1, E2. intros _. cbv zeta. auto.
     - destruct (cl_some f last s id c rest El Hc) as [E1 E2]. cbv zeta in E1, E2. rewrite E1, E2. clear E1 E2.
-      set (s1 := with_ts s (mkT (failed (ts s)) rest (ctx (ts s)) true (skipreq (ts s)))).
+      set (s1 := with_ts s (mkT (failed (ts s)) rest (ctx (ts s)) true (skipreq (ts s)) (ood (ts s)))).
       destruct (keepc_exec geom LF lvl c s1) as [K1 K2].
       assert (Hc1 : cleaning (ts (post (crun c s1))) = true) by (rewrite K1; reflexivity).
       assert (Hx1 : ctx (ts (post (crun c s1))) = false) by (rewrite K2; [exact Hx|reflexivity]).
@@ -105,9 +105,12 @@ Section End.
       + intros H. apply (IH last (post (crun c s1)) r Hc1 Hx1 H).
       + destruct e as [m|m s0|m s0|]; try (cbn; discriminate).
         * destruct (inner && internal_msg m).
-          { (* a cleanup function of a Custom's inner T that ran out of data: its exception is kept *)
-            destruct (bind_ok_shape _ _ mark_dirty (fun _ => cleanup_loop crun inner f (Some (XInvalid m))) (post (crun c s1)) tt eq_refl) as [A B].
-            rewrite A, B. clear A B. intros H. apply (IH _ (post (crun c s1)) r Hc1 Hx1 H). }
+          { (* a cleanup function of a Custom's inner T that ran out of data: noted, which keeps the rest of the T *)
+            destruct (bind_ok_shape _ _ mark_dirty (fun _ => _ <- note_ood m ;; cleanup_loop crun inner f last) (post (crun c s1)) tt eq_refl) as [A B].
+            rewrite A, B. clear A B. cbn [mark_dirty post].
+            destruct (bind_ok_shape _ _ (note_ood m) (fun _ => cleanup_loop crun inner f last) (post (crun c s1)) tt eq_refl) as [A B].
+            rewrite A, B. clear A B.
+            intros H. apply (IH _ (post (note_ood m (post (crun c s1)))) r); [exact Hc1|exact Hx1|exact H]. }
           (* a skipping cleanup function: the request is noted, which keeps the rest of the T *)
           set (mk := if internal_msg m then mark_dirty else ret tt).
           assert (Hmk : res (mk (post (crun c s1))) = Ok tt /\ post (mk (post (crun c s1))) = post (crun c s1))
@@ -129,7 +132,8 @@ Section End.
   Theorem cleanup_end s r :
     res (cleanup LF crun inner s) = Ok r ->
     ts (post (cleanup LF crun inner s))
-    = mkT (failed (ts (post (cleanup LF crun inner s)))) [] false false (skipreq (ts (post (cleanup LF crun inner s)))).
+    = mkT (failed (ts (post (cleanup LF crun inner s)))) [] false false (skipreq (ts (post (cleanup LF crun inner s))))
+          (ood (ts (post (cleanup LF crun inner s)))).
   Proof.
     unfold cleanup.
     destruct (bind_ok_shape _ _ begin_cleanup (fun _ => r0 <- cleanup_loop crun inner LF None ;; _ <- end_cleanup ;; ret r0) s tt eq_refl) as [E1 E2].
@@ -141,7 +145,7 @@ Section End.
     - destruct (bind_ok_shape _ _ (cleanup_loop crun inner LF None) (fun r0 => _ <- end_cleanup ;; ret r0) s1 r0 El) as [F1 F2].
       rewrite F1, F2. clear F1 F2.
       destruct (cleanup_loop_end LF None s1 r0 Hc1 Hx1 El) as [A [B C]].
-      intros _. unfold bind. cbn [end_cleanup ret res post ts with_ts failed skipreq]. rewrite A, C. reflexivity.
+      intros _. unfold bind. cbn [end_cleanup ret res post ts with_ts failed skipreq ood]. rewrite A, C. reflexivity.
     - rewrite (bind_err_shape _ _ (cleanup_loop crun inner LF None) (fun r0 => _ <- end_cleanup ;; ret r0) s1 e El). discriminate.
   Qed.
 End End.
